@@ -1264,6 +1264,114 @@ def entries_apart_from_directories(ctx: Ctx, v: LocalView, rule: str) -> int:
     return n
 
 
+def per_path_state_is_fresh(ctx: Ctx, rule: str) -> int:
+    """In the loop of `sync_paths` / `fetch_paths` over the requested paths, what is known about ONE path (the key its record names, whether its copy exists) is established again
+    at every iteration: a local that the body assigns is never read on a path of the body that skips all its assignments - there it would still hold what the previous path
+    left (or the initial value written before the loop), and the decision for this path would be taken with the state of another one."""
+    rep = ctx.report
+    prog = ctx.prog
+    n = 0
+    for cq in sorted(prog.subclasses("dds.store.Store")):
+        c = prog.classes[cq]
+        for mname in ("sync_paths", "fetch_paths"):
+            f = c.methods.get(mname)
+            if f is None:
+                continue
+            params = set(f.positional_params())
+            cfg = cfg_of(f)
+            for loop in [x for x in f.own_nodes() if isinstance(x, ast.For) and any(isinstance(y, ast.Name) and y.id in params for y in ast.walk(x.iter))]:
+                body_nodes = [y for b_ in loop.body for y in ast.walk(b_)]
+                targets = {y.id for y in ast.walk(loop.target) if isinstance(y, ast.Name)}
+                assigned: Dict[str, List[ast.AST]] = {}
+                for y in body_nodes:
+                    if isinstance(y, (ast.Assign, ast.AnnAssign)) and getattr(y, "value", None) is not None:
+                        for t in (y.targets if isinstance(y, ast.Assign) else [y.target]):
+                            for z in ast.walk(t):
+                                if isinstance(z, ast.Name) and isinstance(z.ctx, ast.Store):
+                                    assigned.setdefault(z.id, []).append(y)
+                    elif isinstance(y, (ast.For, ast.comprehension)):
+                        for z in ast.walk(y.target):
+                            if isinstance(z, ast.Name):
+                                assigned.setdefault(z.id, []).append(y)
+                    elif isinstance(y, ast.withitem) and y.optional_vars is not None:
+                        for z in ast.walk(y.optional_vars):
+                            if isinstance(z, ast.Name):
+                                assigned.setdefault(z.id, []).append(y)
+                    elif isinstance(y, ast.ExceptHandler) and y.name:
+                        assigned.setdefault(y.name, []).append(y)
+                heads = [b for b in cfg.nodes if b.kind == "branch" and b.ast is loop and b.label == "T"]
+                for v_, defs in sorted(assigned.items()):
+                    if v_ in targets:
+                        continue
+                    if any(isinstance(d, (ast.comprehension, ast.For, ast.withitem, ast.ExceptHandler)) for d in defs):
+                        continue  # bound by the construct that uses it
+                    uses = [y for y in body_nodes if isinstance(y, ast.Name) and y.id == v_ and isinstance(y.ctx, ast.Load)]
+                    if not uses:
+                        continue
+                    n += 1
+                    def_nodes = [nd for d in defs for nd in done_nodes(cfg, d)]
+                    stale = None
+                    for u in uses:
+                        st_u = prog.enclosing_stmt(f.module, u)
+                        # (a use inside its own defining statement - `x = x + 1` - reads the previous value by design: not this rule's business)
+                        tg = [nd for nd in cfg.nodes_of(st_u)] or [nd for nd in cfg.nodes if nd.ast is not None and any(z is u for z in ast.walk(nd.ast))]
+                        tg = [nd for nd in cfg.nodes if nd.kind in ("stmt", "test", "loop") and nd.ast is not None and any(z is u for z in nd.exprs() for z in ast.walk(z))] or tg
+                        if any(st_u is d for d in defs):
+                            continue
+                        p_ = cfg.find_path(heads, tg, avoid=def_nodes + [b for b in cfg.nodes if b.kind == "loop" and b.ast is loop])
+                        if p_ is not None:
+                            stale = (u, p_)
+                            break
+                    desc = f"{c.name}.{mname}: `{v_}` is established again for every path before it is read"
+                    if stale is None:
+                        rep.ok(rule, f.qname, desc, f.loc(defs[0]))
+                    else:
+                        u, p_ = stale
+                        rep.bad(rule, f.qname, desc, f.loc(u), [f"{f.loc(u)}: `{v_}` is read on a path of the loop body that assigns it nowhere:"] + CFG.show_path(p_, f.module.relpath)[-5:] + [
+                                "sync_paths([P1 -> K (already committed), P2 -> K (new)]): P2 is judged with the record of P1 - 'up to date' - and gets neither record nor copy; fetch_paths cannot "
+                                "resolve it although sync_paths returned normally"], f"loop-carried:{v_}", what=f"{c.name}.{mname} decides about one path with what it learnt about the previous one")
+    return n
+
+
+def uri_join_is_a_path_join(ctx: Ctx, rule: str) -> int:
+    """`DBFSURI.joinpath` puts exactly one '/' between what it has built so far and the next segment - whatever the spelling of the root (with or without a trailing slash)
+    and however many segments are joined at once.  Abstract evaluation of the method on sample roots and segment lists, compared with the plain path join."""
+    from ..absint import Evaluator, Const, Obj, Unsupported
+    rep = ctx.report
+    prog = ctx.prog
+    f = prog.func("dds.codecs.databricks.DBFSURI.joinpath")
+    if f is None:
+        raise AnchorError("role URI join (dds.codecs.databricks.DBFSURI.joinpath) not found")
+    n = 0
+    for root in ("dbfs:/store/int", "dbfs:/store/int/"):
+        for segs in (["blobs"], ["blobs", "abcd"], ["blobs", "abcd.meta"], ["a", "b", "c"]):
+            n += 1
+            want = root.rstrip("/") + "/" + "/".join(segs)
+            desc = f"joinpath of {root!r} and {segs} is {want!r}"
+            o = Obj("dds.codecs.databricks.DBFSURI", [], {"_uri": Const(root)})
+            o.instance = True
+            try:
+                outs = Evaluator(prog, max_depth=12, instance_modules=["dds.codecs.databricks"]).run(f, [o] + [Const(x) for x in segs])
+            except Unsupported as e:
+                rep.unknown(rule, f.qname, f"abstract evaluation of joinpath stopped: {e}", f.loc())
+                continue
+            got = set()
+            for out in outs:
+                v = out.value
+                if out.kind == "return" and isinstance(v, Obj) and (v.args or v.kwargs):
+                    a0 = v.args[0] if v.args else list(v.kwargs.values())[0]
+                    got.add(a0.v if isinstance(a0, Const) else repr(a0))
+                else:
+                    got.add(f"<{out.kind}>")
+            if got == {want}:
+                rep.ok(rule, f.qname, desc, f.loc())
+            else:
+                rep.bad(rule, f.qname, desc, f.loc(), [f"{f.loc()}: the method gives {sorted(got)}", "a store opened as 'dbfs:/store/int/' (trailing slash) looks for its blobs at "
+                        "'.../intblobs<key>'-like names: the blobs written under the other spelling - legacy blobs included - are not found, load fails although the record exists"],
+                        f"uri-join:{root}:{len(segs)}", what="the URI join of the DBFS store glues segments together for some spelling of the root")
+    return n
+
+
 def _collect_attrs(t: Any, out: Set[str]) -> None:
     if isinstance(t, tuple) and t:
         if t[0] == "attr":
